@@ -30,7 +30,7 @@ EXTENDS Naturals, Sequences, FiniteSets, TLC, SequencesExt, FiniteSetsExt, Json
 CONSTANTS Rotations,      \* set of rotation offsets into AllKinds
           Widths,         \* set of numbers of kinds per request
           TransportSets,  \* set of subsets of {"grpc", "rest"}
-          Namings,        \* subset of {"plain", "nons", "kw", "host"}
+          Namings,        \* subset of {"plain", "nons", "kw", "host", "svchost"}
           NSvcs,          \* subset of 1..2
           ReqPkgs,        \* subset of {"own", "dep"}: the request type lives in the API's package / a dependency
           Flattens,       \* subset of BOOLEAN: method_signature "filter" on the non-client-streaming RPCs
@@ -47,8 +47,14 @@ vars == <<api, stage, specs, focus, lines, segs, index, embed, phase, req, seen>
 AllForms == <<"unary", "paged", "lro", "sstream", "cstream", "bidi", "void">>
 FormIdx(f) == CHOOSE i \in 1..Len(AllForms) : AllForms[i] = f
 Version == "v1"
-Short(a) == IF a.naming = "host" THEN "books" ELSE "lib"       \* first label of the service's default host
 SvcSeq == <<"Library", "Shelf">>
+\* host short name = first label of the SERVICE's own default host.  naming "host": every service is served from
+\* books.example.com (differs from the package name); naming "svchost": the services have DIFFERENT default hosts
+\* (Library: library.example.com, Shelf: archive.example.com)
+Short(a, s) == CASE a.naming = "host" -> "books"
+                 [] a.naming = "svchost" -> (IF s = "Library" THEN "library" ELSE "archive")
+                 [] OTHER -> "lib"
+ShortM(a, s) == IF Mutant = "first_service_host" THEN Short(a, SvcSeq[1]) ELSE Short(a, s)
 SvcSeqSet == {"Library", "Shelf"}
 AllRpcIds == {"unary", "paged", "lro", "sstream", "cstream", "bidi", "void", "kw"}
 Services(a) == {SvcSeq[i] : i \in 1..a.nsvc}
@@ -67,10 +73,12 @@ Snake(r) == CASE r = "unary" -> "get_book" [] r = "paged" -> "list_books" [] r =
 
 \* required-field kinds of a request (rotation order): each scalar, enums, nested messages with / without a
 \* required sub-field / from another package, oneofs whose first member is a scalar / a message with / without a
-\* required sub-field, resource-reference string, repeated scalar / enum / message, map
+\* required sub-field, resource-reference string, repeated scalar / enum / message, map, two required message fields of
+\* the SAME type (msg_twin: _a, _b), a required message field (_m) plus a first-of-oneof member (_a) of that same type
 AllKinds == <<"string", "int32", "enum", "msg", "oneof_scalar", "resref", "rep_string", "bool",
               "int64", "uint32", "uint64", "sint32", "sint64", "fixed32", "fixed64", "sfixed32", "sfixed64",
-              "float", "double", "bytes", "oneof_msg", "rep_enum", "msg_plain", "oneof_plain", "rep_msg", "map", "msg_dep">>
+              "float", "double", "bytes", "oneof_msg", "rep_enum", "msg_plain", "oneof_plain", "rep_msg", "map", "msg_dep",
+              "msg_twin", "msg_oneof_same">>
 KindAt(i) == AllKinds[((i - 1) % Len(AllKinds)) + 1]
 KindsOf(a, r) == {KindAt(RpcIdx(r) + a.rot + w) : w \in 0..(a.width - 1)}
 
@@ -81,9 +89,13 @@ Wanted(a) == Services(a) \X RpcIds(a) \X SampleKinds(a)
 WantedM(a) == CASE Mutant = "no_async_sample" -> Services(a) \X RpcIds(a) \X {"sync"}
                 [] Mutant = "async_for_rest"  -> Services(a) \X RpcIds(a) \X {"sync", "async"}
                 [] OTHER -> Wanted(a)
-Tag(a, s, r, k) == Short(a) \o "_" \o Version \o "_generated_"
+Tag(a, s, r, k) == ShortM(a, s) \o "_" \o Version \o "_generated_"
                    \o (IF Mutant = "tag_without_service" THEN "" ELSE s \o "_") \o RpcName(r) \o "_" \o k
-TagOf(a, s, r, k) == Short(a) \o "_" \o Version \o "_generated_" \o s \o "_" \o RpcName(r) \o "_" \o k
+TagOf(a, s, r, k) == Short(a, s) \o "_" \o Version \o "_generated_" \o s \o "_" \o RpcName(r) \o "_" \o k
+\* the sample file is named after the tag in snake case (generator convention; keyword RPCs keep their plain name here)
+SvcSnake(s) == IF s = "Library" THEN "library" ELSE "shelf"
+FileOf(a, s, r, k) == Short(a, s) \o "_" \o Version \o "_generated_" \o SvcSnake(s) \o "_"
+                      \o (IF r = "kw" THEN "import" ELSE Snake(r)) \o "_" \o k \o ".py"
 SpecRec(a, s, r, k) == [svc |-> s, rpc |-> r, kind |-> k, transport |-> TransportOf(a, k), tag |-> Tag(a, s, r, k)]
 
 \* metadata names ------------------------------------------------------------
@@ -97,22 +109,30 @@ ResultShape(f) == CASE f = "void" -> "none" [] f \in {"sstream", "bidi"} -> "ite
 WithSub == {"msg", "msg_dep", "rep_msg"}
 OneofKinds == {"oneof_scalar", "oneof_msg", "oneof_plain"}
 F(k) == "f_" \o k
-TopRequired(k) == IF k \in OneofKinds THEN {} ELSE {F(k)}
+TopRequired(k) == CASE k \in OneofKinds -> {}
+                    [] k = "msg_twin" -> {F(k) \o "_a", F(k) \o "_b"}
+                    [] k = "msg_oneof_same" -> {F(k) \o "_m"}
+                    [] OTHER -> {F(k)}
 \* <<parent, child>>: whenever parent is populated child must be
-SubRequired(k) == IF k \in WithSub THEN {<<F(k), F(k) \o ".x">>}
-                  ELSE IF k = "oneof_msg" THEN {<<F(k) \o "_a", F(k) \o "_a.x">>}
-                  ELSE IF k = "oneof_scalar" THEN {<<F(k) \o "_b", F(k) \o "_b.x">>} ELSE {}
-OneofMembers(k) == IF k \in OneofKinds THEN {F(k) \o "_a", F(k) \o "_b"} ELSE {}
+SubRequired(k) == CASE k \in WithSub -> {<<F(k), F(k) \o ".x">>}
+                    [] k = "oneof_msg" -> {<<F(k) \o "_a", F(k) \o "_a.x">>}
+                    [] k = "oneof_scalar" -> {<<F(k) \o "_b", F(k) \o "_b.x">>}
+                    [] k = "msg_twin" -> {<<F(k) \o "_a", F(k) \o "_a.x">>, <<F(k) \o "_b", F(k) \o "_b.x">>}
+                    [] k = "msg_oneof_same" -> {<<F(k) \o "_m", F(k) \o "_m.x">>, <<F(k) \o "_a", F(k) \o "_a.x">>}
+                    [] OTHER -> {}
+OneofMembers(k) == IF k \in OneofKinds \cup {"msg_oneof_same"} THEN {F(k) \o "_a", F(k) \o "_b"} ELSE {}
 
 \* the request a sample has to build: every required field (recursively) and one member of each oneof
 Populate(k) == TopRequired(k) \cup {p[2] : p \in {q \in SubRequired(k) : q[1] \in TopRequired(k)}}
-               \cup (IF k \in OneofKinds THEN {F(k) \o "_a"} \cup {p[2] : p \in {q \in SubRequired(k) : q[1] = F(k) \o "_a"}} ELSE {})
+               \cup (IF OneofMembers(k) # {} THEN {F(k) \o "_a"} \cup {p[2] : p \in {q \in SubRequired(k) : q[1] = F(k) \o "_a"}} ELSE {})
 BuildRequest(ks) == UNION {CASE Mutant = "skip_nested" /\ k \in WithSub -> {}
                              [] Mutant = "skip_oneof" /\ k \in OneofKinds -> {}
                              [] Mutant = "both_oneof_members" /\ k \in OneofKinds -> OneofMembers(k)
+                             \* a recursion guard shared by sibling fields: a message type is expanded only once
+                             [] Mutant = "shared_visited" /\ k \in {"msg_twin", "msg_oneof_same"} -> {F(k) \o "_a", F(k) \o "_a.x"}
                              [] OTHER -> Populate(k) : k \in ks}
 MissingRequired(pop, ks) == UNION {(TopRequired(k) \ pop) \cup {p[2] : p \in {q \in SubRequired(k) : q[1] \in pop /\ q[2] \notin pop}} : k \in ks}
-BadOneofs(pop, ks) == {k \in ks : k \in OneofKinds /\ Cardinality(OneofMembers(k) \cap pop) # 1}
+BadOneofs(pop, ks) == {k \in ks : OneofMembers(k) # {} /\ Cardinality(OneofMembers(k) \cap pop) # 1}
 ReqOk(pop, ks) == MissingRequired(pop, ks) = {} /\ BadOneofs(pop, ks) = {}
 
 -----------------------------------------------------------------------------
@@ -208,7 +228,7 @@ ParseSegments == /\ stage = "parse"
                  /\ segs' = SegmentsM(lines) /\ stage' = "index"
                  /\ UNCHANGED <<api, specs, focus, lines, index, embed, phase, req, seen>>
 
-Entry == [tag |-> focus.tag, file |-> focus.tag, client |-> ClientName(focus.svc, focus.kind),
+Entry == [tag |-> focus.tag, file |-> FileOf(api, focus.svc, focus.rpc, focus.kind), client |-> ClientName(focus.svc, focus.kind),
           method |-> Snake(focus.rpc), rpc |-> RpcName(focus.rpc), service |-> focus.svc,
           async |-> focus.kind = "async", params |-> Params(api, focus.rpc),
           result |-> ResultShape(FormOf(focus.rpc)), segs |-> segs]
@@ -294,12 +314,13 @@ Live == <>(stage = "done")
 RpcRec(a, r) == [id |-> r, name |-> RpcName(r), snake |-> Snake(r), form |-> FormOf(r), kinds |-> KindsOf(a, r),
                  required |-> UNION {TopRequired(k) : k \in KindsOf(a, r)},
                  subreq |-> UNION {SubRequired(k) : k \in KindsOf(a, r)},
-                 oneofs |-> {OneofMembers(k) : k \in {k \in KindsOf(a, r) : k \in OneofKinds}},
+                 oneofs |-> {OneofMembers(k) : k \in {k \in KindsOf(a, r) : OneofMembers(k) # {}}},
                  params |-> Params(a, r), result |-> ResultShape(FormOf(r))]
 Canonical == focus = One(specs) /\ lines = One(SampleFiles(FormOf(focus.rpc)))
 Emit == (stage = "done" /\ Canonical) =>
           PrintT(<<"CASE", ToJson([api |-> [ts |-> api.ts, naming |-> api.naming, nsvc |-> api.nsvc, reqpkg |-> api.reqpkg,
-                                            flatten |-> api.flatten, rot |-> api.rot, width |-> api.width, short |-> Short(api),
+                                            flatten |-> api.flatten, rot |-> api.rot, width |-> api.width,
+                                            hosts |-> [s \in Services(api) |-> Short(api, s) \o ".example.com"],
                                             version |-> Version, services |-> Services(api)],
                                    inventory |-> specs,
                                    rpcs |-> {RpcRec(api, r) : r \in RpcIds(api)}])>>)
